@@ -397,7 +397,18 @@ def dataset_files_in_order(ctx: Ctx):
         raise AnalysisError("RL4COEnvBase.__init__: path helper not found")
     h = h[0]
     par = h.args.args[0].arg
-    rets = [r.value for r in ast.walk(h) if isinstance(r, ast.Return) and r.value is not None and not (isinstance(r.value, ast.Constant) and r.value.value is None)]
+    rets = []
+    for blk in ast.walk(h):
+        for body in (getattr(blk, "body", None), getattr(blk, "orelse", None)):
+            if not isinstance(body, list):
+                continue
+            for i, st in enumerate(body):
+                if isinstance(st, ast.Return) and st.value is not None and not (isinstance(st.value, ast.Constant) and st.value.value is None):
+                    v = st.value
+                    # `tmp = <expr>; return tmp`
+                    if isinstance(v, ast.Name) and i > 0 and isinstance(body[i - 1], ast.Assign) and any(isinstance(t, ast.Name) and t.id == v.id for t in body[i - 1].targets):
+                        v = body[i - 1].value
+                    rets.append(v)
     seqs = [r for r in rets if not (isinstance(r, ast.Call) and ast.unparse(r.func).endswith("join") and not any(isinstance(x, (ast.ListComp, ast.GeneratorExp)) for x in ast.walk(r)))]
     ok, why = False, f"{len(seqs)} sequence-valued return(s)"
     if len(seqs) == 1:
